@@ -500,7 +500,7 @@ def family_optimality(ctx, r, exact, n, opaque=False):
     q = strongly_convex_problem(r)
     L, f, g, A = q['L'], q['f'], q['g'], q['A']
     nrm = smax(A)
-    niter = 1500 if ctx.quick else 6000
+    niter = 1500 if ctx.quick else 4000
     x0 = sl.dy_vec(r, q['d'], 16, 8)
     p = dict(solver='optimality', opkind='{}x{}{}'.format(q['m'], q['d'], 'ill' if q['ill'] else ''),
              x0=x0, fk='l2sq_t', gk=q['gk'], cseed=r.cseed)
@@ -666,7 +666,7 @@ C11_TIE = ('landweber', 'kaczmarz', 'pdhg', 'admm', 'proxgrad')
 def plan(ctx, deep=False):
     rng = ctx.rng
     quick = ctx.quick and not deep
-    per = 40 if quick else 150
+    per = 40 if quick else 110
     out = []
     for fam in sorted(FAMILIES):
         k = max(2, int(per * SLOW.get(fam, 1.0)))
